@@ -1722,6 +1722,7 @@ func (v *vmPool) _acquire(vm *VM, cf *CompiledFunction) *VM {
 	defer verifPoint("pool.acquire.registered", v.root)
 	v.mu.Lock()
 	defer v.mu.Unlock()
+	verifPoint("pool.acquire.locked", v.root)
 
 	vm.bytecode.FileSet = v.root.bytecode.FileSet
 	vm.bytecode.Constants = v.root.bytecode.Constants
@@ -1750,6 +1751,7 @@ func (v *vmPool) _release(vm *VM) {
 	verifPoint("pool.release.pre", v.root)
 	defer verifPoint("pool.release.done", v.root)
 	v.mu.Lock()
+	verifPoint("pool.release.locked", v.root)
 	delete(v.vms, vm)
 	v.mu.Unlock()
 
